@@ -62,6 +62,8 @@ Definition value_blind_with_shared_secret (v : cvalue) (vbf shared_secret : Z) (
   : oc blind_err (cvalue * rproof) :=
   match v with
   | VExp value =>
+      (* since 17278a0 (C10 finding F20): a value below the range proof's minimum is refused before the commitment is computed *)
+      if value <? RANGEPROOF_MIN_VALUE then OFail BCannotMakeRangeProof else
       let out_asset_commitment := asset_gen (fst msg) (snd msg) in
       let* value_commitment := pedersen_new value vbf out_asset_commitment in
       match rp_new value_commitment value vbf msg spk shared_secret out_asset_commitment with
